@@ -14,6 +14,29 @@ pub(crate) fn write_bool_as<T: std::convert::From<u8>>(x: &bool) -> T {
     if *x { T::from(1u8) } else { T::from(0u8) }
 }
 
+/// Reads `count` bytes without reserving them first: the count comes from the file, and a damaged one must fail at the
+/// end of the data instead of allocating whatever it says.
+#[binrw::parser(reader)]
+pub(crate) fn read_counted_bytes(count: u64) -> BinResult<Vec<u8>> {
+    use std::io::Read;
+
+    let mut bytes = Vec::new();
+    let read = reader.take(count).read_to_end(&mut bytes)?;
+    if read as u64 != count {
+        return Err(binrw::Error::Io(std::io::Error::from(
+            std::io::ErrorKind::UnexpectedEof,
+        )));
+    }
+
+    Ok(bytes)
+}
+
+/// A string of `count` bytes, read like [read_counted_bytes] and decoded like [read_string].
+#[binrw::parser(reader, endian)]
+pub(crate) fn read_counted_string(count: u64) -> BinResult<String> {
+    Ok(read_string(read_counted_bytes(reader, endian, (count,))?))
+}
+
 pub(crate) fn read_string(byte_stream: Vec<u8>) -> String {
     let str = String::from_utf8_lossy(&byte_stream);
     str.trim_matches(char::from(0)).to_string() // trim \0 from the end of strings
